@@ -189,6 +189,18 @@ CHECKS = {
         BASE_NOTE + 'Window functions, Decimal and compound kinds are outside the generated grammar and the model.',
         'DESIGN.md section 5 C07',
     ),
+    'C13': (
+        'Rocq proof over an abstract actor state machine covering the state codecs of all flavours + differential correspondence on real actors',
+        'Theorems (Properties/C13.v) for every flavour, training history, state and parameter set: a twin rebuilt from the builder '
+        'and given the exported state behaves identically (own set_state or compiled preset); builder hyper-parameters take '
+        'precedence over those inside a state under the preset (and under the default codecs); the empty state changes nothing, an '
+        'untrained decorated actor exports it and a trained one never does (falsy learned states included); incremental training '
+        'continues identically after re-import. Correspondence: random operation sequences (training, apply, parameter updates, '
+        'cloudpickle round trips, transfers with equal/different parameters via set_state and via the real SetState functor) on '
+        'native (default and custom codec), function-decorated and class-wrapped (method-name and callable mapping) actors.',
+        BASE_NOTE + 'User functions are fixed integer arithmetic; cloudpickle is trusted.',
+        'DESIGN.md section 5 C13',
+    ),
 }
 NOT_YET = 'model and theorems not built yet in this round (planned, see DESIGN.md section 5/9)'
 
